@@ -110,7 +110,9 @@ def main(tier):
         "_parser_push pushes a non-ROOT kind, loops by invariant; consequently parse_encoded's closing loop leaves "
         "exactly the root and its `assert len(ctx.parser_stack) == 1` cannot fail. "
         f"{len(c01_stack.ASSUMED) + len(c01_stack.ASSUMED_OTHER)} functions keep an ASSUMED contract (listed under "
-        "assumptions with the obligation local reasoning cannot discharge): they are covered by the bounded tier only. "
+        "assumptions with the obligation local reasoning cannot discharge): they are covered by the bounded tier only, "
+        "which reads their contract (and _parser_pop's precondition) at run time on every call made while parsing the "
+        "generated documents (sys.monitoring; count in bounded_tier.monitored_calls). "
         "Syntactic side conditions: the call graph towards the stack stays inside the contracted set, tokenops holds "
         "only contracted handlers. NOT proved: absence of other exceptions in the handlers, tree shape beyond the "
         "children lists, the tokenizer regexes. "
